@@ -448,7 +448,7 @@ def param_case(draw):
     notifications = draw(st.lists(st.fixed_dictionaries({'at': st.sampled_from([0.0, 0.0005, 0.001, 0.002, 0.01, 0.05, 0.3]), 'p': st.integers(0, 15),
                                                          'v': st.integers(0, 1000)}), max_size=4))
     return {'version': draw(st.sampled_from([10, 10, 4, 3, 0])), 'tseed': draw(st.integers(0, 9)), 'threads': threads, 'notifications': notifications,
-            'delays': draw(st.lists(st.sampled_from([0.001, 0.001, 0.003, 0.01, 0.05, 0.3]), min_size=1, max_size=6)), 'schedule': draw(_sched)}
+            'delays': draw(st.lists(st.sampled_from([0.0, 0.0, 0.001, 0.001, 0.003, 0.01, 0.05, 0.3]), min_size=1, max_size=6)), 'schedule': draw(_sched)}
 
 
 def subchecks(tier):
